@@ -334,7 +334,7 @@ def check_cast(P, R):
             defs = rd.at(rn, v.id)
             ok = bool(defs)
             for d in defs:
-                ok = ok and iter_value_ok(f, d)
+                ok = ok and iter_value_ok(f, d, rn)
             det = '' if ok else f'`{v.id}` may be bound to something that does not yield bytes: {[short(d.value) for d in defs]}'
         R.ob('C03.d', f, r, ok, detail=det, why='the application returns an iterable of byte strings')
         # ---- e: Content-Length pairing
@@ -399,28 +399,100 @@ def check_cast(P, R):
     R.ob('C03.d', f, lc[0].ast if lc else f.node, bool(lc), text='casting loop is bounded', detail='' if lc else 'the casting loop has no iteration bound', nontrivial=False)
 
 
-def iter_value_ok(f, d):
+def _item_types(f, defnode, use, item, var):
+    """The types ('bytes', 'str', 'other') the peeked item `item` may have on a path that executes `defnode` and then reaches
+    `use` with `var` still bound by `defnode`.  A type is excluded only when every such path takes an edge of an
+    `isinstance(item, ...)` test (on the same binding of the item) that the type contradicts."""
+    g, rd = f.cfg, f.rd
+    item_defs = {d.node for d in rd.at(defnode, item) if d.node is not None}
+    all_item_defs = {n for n, ds in rd.gen.items() for d in ds if d.name == item}
+    killers = {n for n, ds in rd.gen.items() for d in ds if d.name == var and n is not defnode}
+    tests = []
+    for n in g.nodes:
+        if n.kind != 'test':
+            continue
+        t, neg = strip_not(n.ast)
+        if isinstance(t, ast.Call) and dotted(t.func) == 'isinstance' and len(t.args) == 2 and src(t.args[0]) == item:
+            a1 = t.args[1]
+            names = [src(e) for e in a1.elts] if isinstance(a1, ast.Tuple) else [src(a1)]
+            tests.append((n, neg, set(names)))
+    out = set()
+    for typ in ('bytes', 'str', 'other'):
+        avoid = set()
+        for (n, neg, names) in tests:
+            if typ in names:
+                holds = True
+            elif typ == 'other' and not names <= {'bytes', 'str'}:
+                continue                                    # may or may not hold
+            else:
+                holds = False
+            taken = ('true' if holds else 'false') if not neg else ('false' if holds else 'true')
+            avoid.add((n, 'false' if taken == 'true' else 'true'))
+        # item bound -> defnode, with the tests of this binding constraining the way
+        starts = item_defs or {g.entry}
+        before = g.reachable_from(starts, avoid_nodes=all_item_defs - {defnode}, avoid_edges=avoid)
+        if defnode not in before and defnode not in starts:
+            continue
+        if use is defnode:
+            out.add(typ)
+            continue
+        after = g.reachable_from(defnode, avoid_nodes=killers, avoid_edges=avoid)
+        if use in after:
+            out.add(typ)
+            continue
+        # a rebinding of the item frees the later tests
+        for n2 in after & all_item_defs:
+            if n2 is not defnode and g.can_reach(n2, use, avoid_nodes=killers):
+                out.add(typ)
+                break
+    return out
+
+
+def _chain_item(v):
+    if isinstance(v, ast.Call) and dotted(v.func) in ('itertools.chain', 'chain'):
+        a0 = v.args[0] if v.args else None
+        if isinstance(a0, ast.List) and len(a0.elts) == 1 and isinstance(a0.elts[0], ast.Name):
+            return a0.elts[0].id
+    return None
+
+
+def iter_value_ok(f, d, use):
+    """the value bound by `d` yields bytes on every path on which it reaches `use`"""
     g, rd = f.cfg, f.rd
     v = d.value
-    if v is None:
+    if v is None or d.node is None:
         return False
     if isinstance(v, ast.Call) and dotted(v.func) == '_closeiter' and v.args and isinstance(v.args[0], ast.Name):
         inner = rd.at(d.node, v.args[0].id)
-        return bool(inner) and all(iter_value_ok(f, x) for x in inner if x is not d)
+        return bool(inner) and all(iter_value_ok(f, x, d.node) for x in inner if x is not d)
+    item = _chain_item(v)
+    if item:
+        # chain([first], iout) only for a bytes item
+        return _item_types(f, d.node, use, item, d.name) <= {'bytes'}
     if isinstance(v, ast.Call) and dotted(v.func) in ('itertools.chain', 'chain'):
-        # chain([first], iout) under isinstance(first, bytes)
-        a0 = v.args[0] if v.args else None
-        if isinstance(a0, ast.List) and len(a0.elts) == 1 and isinstance(a0.elts[0], ast.Name):
-            return _guarded_by_isinstance(g, d.node, a0.elts[0].id, 'bytes', rd)
         return False
     if isinstance(v, ast.GeneratorExp):
         e = v.elt
-        if isinstance(e, ast.Call) and call_attr(e) == 'encode':
-            chains = [x for x in ast.walk(T.expand(f, v.generators[0].iter, d.node)) if isinstance(x, ast.Call) and dotted(x.func) in ('itertools.chain', 'chain')]
-            for ch in chains:
-                a0 = ch.args[0] if ch.args else None
-                if isinstance(a0, ast.List) and len(a0.elts) == 1 and isinstance(a0.elts[0], ast.Name):
-                    return _guarded_by_isinstance(g, d.node, a0.elts[0].id, 'str', rd)
+        if not (isinstance(e, ast.Call) and call_attr(e) == 'encode' and len(v.generators) == 1 and not v.generators[0].ifs):
+            return False
+        it = v.generators[0].iter
+        if isinstance(it, ast.Name) and not _chain_item(it):
+            inner = rd.at(d.node, it.id)
+            if not inner:
+                return False
+            for x in inner:
+                item = _chain_item(x.value) if x.value is not None and x.node is not None else None
+                if not item:
+                    return False
+                # ... the text chain is encoded: both the chain and the encoding must be on a str-only flow
+                if not _item_types(f, x.node, d.node, item, x.name) <= {'str'}:
+                    return False
+                if not _item_types(f, d.node, use, item, d.name) <= {'str'}:
+                    return False
+            return True
+        item = _chain_item(it)
+        if item:
+            return _item_types(f, d.node, use, item, d.name) <= {'str'}
         return False
     return False
 
